@@ -240,7 +240,7 @@ def render_nodes(c, fl, macs, depth=0, in_arg=False):
                     sub = render_nodes(c, a[1] if a[0] == 'braced' else [('w',)], macs, depth + 1, True)
                     c.src += '}'
                     args.append(('nodes', sub))
-            if m.n == 0 or (m.n == 1 and m.default is not None and not given_opt):
+            if m.n == 0:
                 c.src += '{}'
             hi = len(c.src)
             c.src += ' '
